@@ -582,6 +582,17 @@ def innermost_dns_site(exc) -> str:
     return site
 
 
+def raised_in_library(exc) -> bool:
+    """True when the innermost frame of the exception's traceback is inside the dns package
+    (the code under test raised it), False when the harness itself did."""
+    tb = exc.__traceback__
+    last = None
+    while tb is not None:
+        last = tb.tb_frame.f_code.co_filename.replace("\\", "/")
+        tb = tb.tb_next
+    return last is not None and "/dns/" in last and "/bounded/" not in last
+
+
 class HarnessTimeout(BaseException):
     pass
 
